@@ -1,168 +1,455 @@
-"""C11 - constants evaluate as integer arithmetic and substitute transparently (structural clauses)."""
+"""C11 - constants evaluate as integer arithmetic and substitute transparently (structural clauses).
+
+The rules are stated over dataflow: parameter *positions* of the passes (which argument of a pass receives the constants table /
+the label table is read from the abstractly evaluated pipeline of assemble, bbverif.passorder), attribute provenance (the field an
+Expr class stores its constructor argument in), paths with helper methods / helper functions inlined (bbverif.construles), and
+literal sets resolved through local and module-level names.  Failures of a shared engine or constructs that are not understood are
+collected and end the run with ANALYSIS-ERROR unless a violation has been established."""
 import ast
 
 from ..core import Report, Finding, AnalysisError
 from ..facts import Facts
 from ..astutil import unparse, dotted, walk_no_nested
-from ..pathwalk import show, is_const, C, loop_paths
-from ..layout import pipeline
-from .. import layoutrules as LR, immsites as IS, encprops
-from ..encsum import all_summaries, derived_operand
-from ..comprel import CompRel
-from ..wiring import chain_outcomes
-from .c12 import check_representation
-from .c08 import check_envs
+from ..pathwalk import show, is_const, C, PathState
+from ..layout import account
+from .. import immsites as IS, encprops
+from ..passorder import Pipeline
+from ..construles import method_paths, item_loop_paths, Resolver, encoder_param_kinds, XWalker
+from ..layoutrules import returned_list
 
 LEVEL = 'other'
 
+EXPR_EVAL_PARAMS = 3      # eval(self, position, env, line)
 
-def check_integer_results(rep, facts):
-    """R11.1: every value returned by Arithmetic.eval passed the `type(result) != int -> raise` test or is ord(<one char>)."""
-    ci = facts.classes.get('Arithmetic')
-    if ci is None or 'eval' not in ci.methods:
-        raise AnalysisError('anchor vanished: Arithmetic.eval')
-    m = ci.methods['eval']
-    paths = IS.function_paths(facts, m)
+
+def stored_fields(facts, cls):
+    """{attribute: constructor parameter index} for `self.attr = param` assignments of cls.__init__."""
+    params = [p for p, _ in facts.init_params(cls)]
+    out = {}
+    for attr, src in facts.full_attr_order(cls):
+        if src in params:
+            out[attr] = params.index(src)
+    return out
+
+
+def norm_test(t, pol):
+    while t[0] == 'un' and t[1] == 'not':
+        t, pol = t[2], not pol
+    return t, pol
+
+
+def exact_int_guard(v, conds):
+    """Has the value v passed `type(v) is int` on this path (any spelling / polarity)?"""
+    isa_int = not_bool = False
+    for t, pol, _ in conds:
+        t, pol = norm_test(t, pol)
+        if t[0] == 'cmp' and pol is not None:
+            a, b = t[2], t[3]
+            for x, y in ((a, b), (b, a)):
+                if x == ('call', 'type', (v,), ()) and y == ('name', 'int'):
+                    if (t[1] in ('!=', 'is not') and pol is False) or (t[1] in ('==', 'is') and pol is True):
+                        return True
+        if t[0] == 'call' and t[1] == 'isinstance' and len(t[2]) == 2 and t[2][0] == v:
+            if t[2][1] == ('name', 'int') and pol is True:
+                isa_int = True
+            if t[2][1] == ('name', 'bool') and pol is False:
+                not_bool = True
+    return isa_int and not_bool
+
+
+def check_integer_results(rep, facts, und):
+    """R11.1: every value returned by Arithmetic.eval (helper methods inlined) passed the exact-int test or is ord(<one char>); the
+    evaluation runs on the stored expression text with builtins pinned off and the caller's environment as namespace."""
+    if 'Arithmetic' not in facts.classes:
+        raise AnalysisError('anchor vanished: class Arithmetic')
+    m, paths = method_paths(facts, 'Arithmetic', 'eval')
+    params = [a.arg for a in m.args.args]
+    if len(params) != EXPR_EVAL_PARAMS + 1:
+        raise AnalysisError('Arithmetic.eval does not have the (position, env, line) signature')
+    env_param = ('name', params[2])
+    fields = stored_fields(facts, 'Arithmetic')
     n = 0
+    evals = {}
     for p in paths:
+        for ev in p.events:
+            for t in IS.find_all(ev[1:-1], lambda t: t[0] == 'call' and t[1] == 'eval'):
+                evals.setdefault(t, ev[-1])
         if p.end != 'return':
             continue
         n += 1
         val = [e for e in p.events if e[0] == 'return'][-1]
         v = val[1]
-        if v[0] == 'call' and v[1] == 'ord':
+        if v[0] == 'call' and v[1] == 'ord' and len(v[2]) == 1:
             rep.ok('R11.1.integer', 'character literal path returns ord(c)')
             continue
-        guarded = False
-        for t, pol, node in p.conds:
-            # type(result) != int  with polarity False, or type(result) == int / isinstance(result, int) with polarity True
-            while t[0] == 'un' and t[1] == 'not':
-                t, pol = t[2], not pol
-            if t[0] == 'cmp' and t[2] == ('call', 'type', (v,), ()) and t[3] == ('name', 'int'):
-                if (t[1] in ('!=', 'is not') and pol is False) or (t[1] in ('==', 'is') and pol is True):
-                    guarded = True
-        rep.check(guarded, 'R11.1.integer', 'evaluated result is returned only after the exact-int test',
-                  lambda val=val: Finding('R11.1.integer', 'Arithmetic.eval', val[2],
-                                          'a result of eval() is returned without having passed `type(result) != int -> error`: bool / float / str results become immediates', line=val[2].lineno))
+        if is_const(v) and type(v[1]) is int:
+            rep.ok('R11.1.integer', 'constant integer result', nontrivial=False)
+            continue
+        if exact_int_guard(v, p.conds):
+            rep.ok('R11.1.integer', 'evaluated result is returned only after the exact-int test')
+        elif v[0] == 'call' and v[1] == 'eval':
+            rep.fail(Finding('R11.1.integer', 'Arithmetic.eval', val[2],
+                             'a result of eval() is returned without having passed `type(result) != int -> error`: bool / float / str results become immediates',
+                             line=val[2].lineno), instance='evaluated result is returned only after the exact-int test')
+        else:
+            und.append('Arithmetic.eval returns a value whose type is not understood: {}'.format(show(v)[:80]))
     rep.analysed['Arithmetic.eval return paths'] = n
-    evals = [x for x in ast.walk(m) if isinstance(x, ast.Call) and dotted(x.func) == 'eval']
-    for e in evals:
-        g = e.args[1] if len(e.args) > 1 else None
-        ok = isinstance(g, ast.Dict) and any(isinstance(k, ast.Constant) and k.value == '__builtins__' and isinstance(v, ast.Constant) and v.value is None
-                                             for k, v in zip(g.keys, g.values))
-        rep.check(ok and len(e.args) == 3 and unparse(e.args[0]) == 'self.expr', 'R11.1.sandbox', 'eval(self.expr, {__builtins__: None}, env)',
-                  lambda e=e: Finding('R11.1.sandbox', 'Arithmetic.eval', e, 'the expression is not evaluated with builtins pinned off and the given environment as namespace', line=e.lineno))
+    for t, node in evals.items():
+        args, kw = t[2], dict(t[3])
+        src = args[0] if args else kw.get('source')
+        g = args[1] if len(args) > 1 else kw.get('globals')
+        loc = args[2] if len(args) > 2 else kw.get('locals')
+        src_ok = src is not None and src[0] == 'attr' and src[1] == ('name', params[0]) and src[2] in fields
+        g_ok = False
+        if g is not None and g[0] == 'dict':
+            g_ok = any(k == C('__builtins__') and (v == C(None) or (v[0] == 'dict' and not v[1])) for k, v in g[1])
+        elif g is not None and g[0] == 'name' and isinstance(facts.consts.get(g[1]), dict):
+            d = facts.consts[g[1]]
+            g_ok = '__builtins__' in d and d['__builtins__'] in (None, {})
+        rep.check(src_ok and g_ok and loc == env_param, 'R11.1.sandbox', 'eval(<stored expression text>, {__builtins__: None}, <the env argument>)',
+                  lambda node=node: Finding('R11.1.sandbox', 'Arithmetic.eval', node, 'the expression is not evaluated with builtins pinned off and the given environment as namespace', line=node.lineno))
+    rep.analysed['sandboxed evaluations'] = len(evals)
 
 
-def check_constants_pass(rep, facts):
-    """R11.2: constants are evaluated in definition order, earlier constants visible, result stored under the constant's name."""
-    pa = LR.pass_analysis(facts, 'resolve_constants')
-    item = pa.item
+def is_chainmap(v):
+    return v is not None and v[0] == 'call' and v[1].split('.')[-1] == 'ChainMap'
+
+
+def check_constants_pass(rep, facts, pipe, und):
+    """R11.2: constants are evaluated in definition order, earlier constants visible, result stored under the constant's name; names
+    the environment already resolves (registers) and numeric names are refused; the pass precedes every other user of the table."""
+    fn = facts.funcs.get('resolve_constants')
+    if fn is None:
+        raise AnalysisError('anchor vanished: pass resolve_constants')
+    pos = table_position(pipe, 'resolve_constants', 'constants')
+    tbl = ('name', fn.args.args[pos].arg)
+    _, loop, paths = item_loop_paths(facts, fn)
+    if not isinstance(loop.target, ast.Name):
+        raise AnalysisError('resolve_constants: item loop does not bind a single name')
+    item = ('item', loop.target.id)
+    result = returned_list(fn)
     n = 0
-    for r in pa.rows:
-        p = r['path']
+    fallback = None
+    const_paths = []
+    key_attrs = set()
+    for p in paths:
         f = p.facts.get(item)
-        if not f or 'Constant' not in f['isa'] or p.end == 'raise':
+        if not f or 'Constant' not in f['isa']:
+            continue
+        const_paths.append(p)
+        if p.end == 'raise':
             continue
         n += 1
         evs = [e for e in p.events if e[0] == 'value' and e[1][0] == 'mcall' and e[1][2] == 'eval']
-        sets = [e for e in p.events if e[0] == 'setitem' and e[1] == ('name', 'constants')]
-        ok = len(evs) == 1 and len(sets) == 1 and sets[0][2] == ('attr', item, 'name') and sets[0][3] == evs[0][1] \
-            and evs[0][1][1] == ('attr', item, 'expr')
-        env = evs[0][1][3][1] if evs else None
-        env_ok = env is not None and env[0] == 'call' and env[1] == 'ChainMap' and env[2] and env[2][0] == ('name', 'constants')
+        sets = [e for e in p.events if e[0] == 'setitem' and e[1] == tbl]
+        fields = stored_fields(facts, 'Constant')
+        ok = len(evs) == 1 and len(sets) == 1 and sets[0][2][0] == 'attr' and sets[0][2][1] == item and sets[0][3] == evs[0][1] \
+            and evs[0][1][1][0] == 'attr' and evs[0][1][1][1] == item and evs[0][1][1][2] in fields and sets[0][2][2] in fields \
+            and sets[0][2][2] != evs[0][1][1][2]
+        if ok:
+            key_attrs.add(sets[0][2][2])
+        env = evs[0][1][3][1] if evs and len(evs[0][1][3]) > 1 else None
+        env_ok = is_chainmap(env) and env[2] and env[2][0] == tbl
+        if env_ok and len(env[2]) > 1:
+            fallback = env[2][1]
         rep.check(ok and env_ok, 'R11.2.sequential', 'constants[name] = expr.eval(env over the constants defined so far)',
-                  lambda p=p: Finding('R11.2.sequential', 'resolve_constants', sets[0][4] if sets else pa.loop,
-                                      'a constant is not stored as the value of its own expression evaluated over the constants defined before it', line=pa.loop.lineno))
-        drops = not r['app_values']
-        rep.check(drops, 'R11.2.sequential', 'the constant item itself emits nothing',
-                  lambda: Finding('R11.2.sequential', 'resolve_constants', pa.loop, 'constant definitions are kept as items', line=pa.loop.lineno), nontrivial=False)
+                  lambda p=p: Finding('R11.2.sequential', 'resolve_constants', sets[0][4] if sets else loop,
+                                      'a constant is not stored as the value of its own expression evaluated over the constants defined before it', line=loop.lineno))
+        acc = account(p, result)
+        kept = [a for a in acc.appended if a[0] in (('lv', result), ('name', result))]
+        rep.check(not kept, 'R11.2.sequential', 'the constant item itself emits nothing',
+                  lambda: Finding('R11.2.sequential', 'resolve_constants', loop, 'constant definitions are kept as items', line=loop.lineno), nontrivial=False)
     rep.analysed['constant definition paths'] = n
-    raises = [r for r in pa.rows if r['path'].end == 'raise']
-    texts = ' '.join(show(t) for r in raises for t, pol, _ in r['path'].conds if pol)
-    rep.check('REGISTERS' in texts, 'R11.2.names', 'a constant may not shadow a register name',
-              lambda: Finding('R11.2.names', 'resolve_constants', pa.loop, 'constant names that shadow registers are no longer refused: `t0 = 5` would change what `t0` means', line=pa.loop.lineno))
-    rep.check('is_int' in texts, 'R11.2.names', 'a constant may not be named like a number',
-              lambda: Finding('R11.2.names', 'resolve_constants', pa.loop, 'numeric constant names are no longer refused', line=pa.loop.lineno), nontrivial=False)
-    # ordering: constants are final before anything reads them
-    order = [n_ for n_, g, node, a, t in pipeline(facts)]
-    rep.check('resolve_constants' in order and order.index('resolve_constants') < min(order.index(x) for x in order if x in ('resolve_labels', 'resolve_register_aliases')),
-              'R11.2.order', 'constants are resolved before labels and register aliases',
-              lambda: Finding('R11.2.order', 'assemble', 'pipeline', 'constants are not resolved first', line=facts.funcs['assemble'].lineno), nontrivial=False)
+    # refusals: a positive membership test of the constant's name in the fallback map of the environment / is_int(name)
+    raises = [p for p in const_paths if p.end == 'raise']
+    name_syms = [('attr', item, a) for a in sorted(key_attrs)]       # the field the table is keyed by
+
+    def positive(p, pred):
+        for t, pol, _ in p.conds:
+            t, pol = norm_test(t, pol)
+            if pred(t, pol):
+                return True
+        return False
+
+    def shadows(t, pol):
+        if t[0] != 'cmp' or t[2] not in name_syms:
+            return False
+        table = t[3]
+        if table[0] == 'mcall' and table[2] == 'keys':
+            table = table[1]
+        if fallback is not None and table != fallback:
+            return False
+        return (t[1] == 'in' and pol is True) or (t[1] == 'not in' and pol is False)
+
+    def numeric(t, pol):
+        return t[0] == 'call' and t[1] == 'is_int' and len(t[2]) == 1 and t[2][0] in name_syms and pol is True
+    # refusals that depend on the constant's name (a raise reached under a condition that mentions it)
+    raise_nodes = {id(p.end_node) for p in raises if any(any(IS.contains(t, s_) for s_ in name_syms) for t, _, _ in p.conds)}
+    has_shadow = any(positive(p, shadows) for p in raises)
+    has_numeric = any(positive(p, numeric) for p in raises)
+    explained = {id(p.end_node) for p in raises if positive(p, shadows) or positive(p, numeric)}
+    unexplained = len(raise_nodes - explained)
+    if not key_attrs:
+        und.append('resolve_constants: the field a constant is stored under is not identified')
+    elif not has_shadow and unexplained:
+        und.append('resolve_constants refuses constant names through a test that is not understood')
+    else:
+        rep.check(has_shadow, 'R11.2.names', 'a constant may not shadow a register name',
+                  lambda: Finding('R11.2.names', 'resolve_constants', loop, 'constant names that shadow registers are no longer refused: `t0 = 5` would change what `t0` means', line=loop.lineno))
+    if not key_attrs:
+        pass
+    elif not has_numeric and unexplained:
+        und.append('resolve_constants refuses constant names through a test that is not understood')
+    else:
+        rep.check(has_numeric, 'R11.2.names', 'a constant may not be named like a number',
+                  lambda: Finding('R11.2.names', 'resolve_constants', loop, 'numeric constant names are no longer refused', line=loop.lineno), nontrivial=False)
+    # ordering: the table is complete before any other pass receives it
+    for compress, calls in pipe.all_paths():
+        passes = pipe.passes(calls)
+        definer = [c for c in passes if c.named('resolve_constants')]
+        if len(definer) != 1:
+            und.append('resolve_constants is called {} times on a path of assemble'.format(len(definer)))
+            continue
+        table = definer[0].args[pos] if len(definer[0].args) > pos else None
+        users = [c for c in passes if c is not definer[0] and table is not None and (table in c.args or table in c.kwargs.values())]
+        early = [c for c in users if c.index < definer[0].index]
+        rep.check(not early, 'R11.2.order', 'constants are resolved before every other pass that receives the table (compress={})'.format(compress),
+                  lambda early=early: Finding('R11.2.order', 'assemble', 'pipeline', 'constants are not resolved first: {} receives the table before it is filled'.format(early[0].name),
+                                              line=facts.funcs['assemble'].lineno), nontrivial=False)
+        rep.count('passes that receive the constants table', len(users))
 
 
-def check_aliases(rep, facts):
+def table_position(pipe, pass_name, role):
+    """Argument position at which assemble hands the `role` table to the pass (the same on every path)."""
+    found = set()
+    for compress, calls in pipe.all_paths():
+        tables = role_tables(pipe, calls)
+        for c in pipe.passes(calls):
+            if c.named(pass_name) and c.name == pass_name:
+                for i, a in enumerate(c.args):
+                    if tables.get(role) is not None and a == tables[role]:
+                        found.add(i)
+    if len(found) != 1:
+        raise AnalysisError('{}: the position of the {} table among its arguments is not determined ({})'.format(pass_name, role, sorted(found)))
+    return found.pop()
+
+
+def role_tables(pipe, calls):
+    """{'constants': value, 'labels': value}: the table is what assemble hands to the pass that defines it."""
+    out = {}
+    for role, definer in (('constants', 'resolve_constants'), ('labels', 'resolve_labels')):
+        for c in pipe.passes(calls):
+            if c.named(definer):
+                cands = [a for a in c.args if a[0] not in ('items', 'const', 'func', 'class', 'closure')]
+                if len(cands) == 1:
+                    out[role] = cands[0]
+                break
+    return out
+
+
+def check_envs(rep, facts, pipe, und):
+    """R11.2.env: every pass that receives both tables evaluates in an environment that looks constants up first:
+    ChainMap(<constants parameter>, <labels parameter>), with the parameters identified by argument position."""
+    seen = {}
+    for compress, calls in pipe.all_paths():
+        tables = role_tables(pipe, calls)
+        if 'constants' not in tables or 'labels' not in tables:
+            raise AnalysisError('assemble: the constants / label tables are not identified')
+        for c in pipe.passes(calls):
+            if c.name not in facts.funcs:
+                continue
+            ci = [i for i, a in enumerate(c.args) if a == tables['constants']]
+            li = [i for i, a in enumerate(c.args) if a == tables['labels']]
+            if ci and li:
+                seen.setdefault(c.name, set()).add((ci[0], li[0]))
+    n = 0
+    for name, positions in sorted(seen.items()):
+        if len(positions) != 1:
+            und.append('{} receives the tables at different positions on different paths'.format(name))
+            continue
+        ci, li = next(iter(positions))
+        fn = facts.funcs[name]
+        res = Resolver(facts, fn)
+        if fn.args.vararg or len(fn.args.args) <= max(ci, li):
+            und.append('{}: table parameters are not plain positional parameters'.format(name))
+            continue
+        envs = 0
+        for node in ast.walk(fn):
+            if isinstance(node, ast.Call) and dotted(node.func) in ('ChainMap', 'collections.ChainMap'):
+                idx = [res.param_index(a) for a in node.args]
+                if li not in idx:
+                    continue
+                envs += 1
+                n += 1
+                ok = idx == [ci, li]
+                rep.check(ok, 'R11.2.env', '{}: ChainMap(constants, labels)'.format(name),
+                          lambda node=node, name=name: Finding('R11.2.env', name, node,
+                                                               'evaluation environment {} gives names a different precedence than every other site'.format(unparse(node)), line=node.lineno))
+        if not envs:
+            und.append('{} receives the constants and the label table but builds no ChainMap over them (environment not understood)'.format(name))
+        else:
+            rep.count('passes with a label environment')
+    rep.count('label environments', n)
+
+
+def check_aliases(rep, facts, pipe, und):
     """R11.3: register aliases are substituted before every consumer of register fields, in exactly the register fields,
     by a positional rebuild that preserves every other field."""
-    order = [(n, g) for n, g, node, a, t in pipeline(facts)]
-    names = [n for n, g in order]
-    alias_idx = [i for i, n in enumerate(names) if n == 'resolve_register_aliases']
-    creators = [i for i, n in enumerate(names) if n in ('transform_pseudo_instructions',)]
-    consumers = [i for i, n in enumerate(names) if n in ('transform_compressible', 'resolve_instructions')]
     fn = facts.funcs['assemble']
-    for c in consumers:
-        prior = [a for a in alias_idx if a < c]
-        made = [m for m in creators if m < c]
-        ok = bool(prior) and (not made or max(prior) > max(made))
-        rep.check(ok, 'R11.3.order', '{} (step {}) sees alias-resolved registers'.format(names[c], c),
-                  lambda c=c: Finding('R11.3.order', 'assemble', 'pipeline', '{} runs on items whose register fields may still be constant names'.format(names[c]), line=fn.lineno))
-    # REGS covers every register-kinded attribute of every instruction class
+    for compress, calls in pipe.all_paths():
+        passes = pipe.passes(calls)
+        names = [c for c in passes]
+        alias_idx = [i for i, c in enumerate(names) if c.named('resolve_register_aliases')]
+        creators = [i for i, c in enumerate(names) if c.named('transform_pseudo_instructions')]
+        consumers = [i for i, c in enumerate(names) if c.named('transform_compressible') or c.named('resolve_instructions')]
+        if not any(c.named('resolve_instructions') for c in names):
+            und.append('resolve_instructions is not among the passes of assemble')
+        # the item list is threaded: each pass works on the result of the previous one
+        for a, b in zip(names, names[1:]):
+            if a.result not in b.args:
+                und.append('pass {} does not receive the item list returned by {}'.format(b.name, a.name))
+        for c in consumers:
+            prior = [a for a in alias_idx if a < c]
+            made = [m for m in creators if m < c]
+            ok = bool(prior) and (not made or max(prior) > max(made))
+            who = 'resolve_instructions' if names[c].named('resolve_instructions') else names[c].name
+            rep.check(ok, 'R11.3.order', '{} (step {}, compress={}) sees alias-resolved registers'.format(who, c, compress),
+                      lambda who=who: Finding('R11.3.order', 'assemble', 'pipeline', '{} runs on items whose register fields may still be constant names'.format(who), line=fn.lineno))
     ra = facts.funcs.get('resolve_register_aliases')
+    if ra is None:
+        raise AnalysisError('anchor vanished: pass resolve_register_aliases')
+    res = Resolver(facts, ra)
+    tpos = table_position(pipe, 'resolve_register_aliases', 'constants')
+
+    def is_table(node):
+        return res.param_index(node) == tpos
+
+    # the field filter: literal sets of field names used in membership tests / intersections
     regs = None
+    regs_node = ra
+    cands = []
     for n in ast.walk(ra):
-        if isinstance(n, ast.Assign) and isinstance(n.value, ast.Set):
-            try:
-                regs = {e.value for e in n.value.elts}
-                regs_node = n
-            except AttributeError:
-                pass
+        if isinstance(n, ast.Compare) and len(n.ops) == 1 and isinstance(n.ops[0], (ast.In, ast.NotIn)) and not is_table(n.comparators[0]):
+            cands.append((n.comparators[0], n))
+        elif isinstance(n, ast.BinOp) and isinstance(n.op, ast.BitAnd):
+            cands.extend([(n.left, n), (n.right, n)])
+        elif isinstance(n, ast.Call) and isinstance(n.func, ast.Attribute) and n.func.attr in ('intersection', 'isdisjoint', 'issubset'):
+            cands.extend([(n.func.value, n)] + [(a, n) for a in n.args])
+        elif isinstance(n, (ast.For, ast.comprehension)):
+            cands.append((n.iter, n))
+    for expr, n in cands:
+        v = res.literal(expr)
+        if v is not None and v and all(isinstance(x, str) for x in v):
+            if regs is not None and set(v) != regs:
+                und.append('resolve_register_aliases filters fields by two different literal sets')
+            regs = set(v)
+            regs_node = n
     if regs is None:
-        raise AnalysisError('resolve_register_aliases: no literal set of register field names')
-    cls_tables, _ = encprops.class_tables(facts)
-    tables = facts.instruction_tables()
-    sums = all_summaries(facts)
-    needed = set()
-    for cls, tnames in cls_tables.items():
-        if cls == 'PseudoInstruction' or cls not in facts.classes:
-            continue
-        attrs = facts.args_attrs(cls) or []
-        for t in tnames:
-            for m in tables.get(t, {}):
-                s = sums[m]
-                for attr, p in zip(attrs, s.params):
-                    info = derived_operand(s, p)
-                    if info is not None and info['kind'] == 'reg':
-                        needed.add(attr)
-    rep.check(needed <= regs, 'R11.3.fields', 'alias substitution covers every register-kinded field {}'.format(sorted(needed)),
-              lambda: Finding('R11.3.fields', 'resolve_register_aliases', regs_node,
-                              'register fields {} are never alias-resolved: a constant naming a register is rejected there'.format(sorted(needed - regs)), line=regs_node.lineno))
-    extra = regs - needed
-    rep.check(not (extra & {'imm', 'name', 'line'}), 'R11.3.fields', 'alias substitution touches register fields only',
-              lambda: Finding('R11.3.fields', 'resolve_register_aliases', regs_node, 'non-register fields {} are rewritten by alias resolution'.format(sorted(extra)), line=regs_node.lineno), nontrivial=False)
-    # the rewrite: value replaced by constants[value] under `value in constants`, key restricted to REGS, positional rebuild
-    src = unparse(ra)
-    pa = LR.pass_analysis(facts, 'resolve_register_aliases')
+        raise AnalysisError('resolve_register_aliases: no literal set of register field names (looked through locals and module-level constants)')
+    # which fields hold registers: attribute k of a class -> k-th value of args() -> k-th positional parameter of the encoder
+    # bound to each of the class's mnemonics -> does that parameter reach lookup_register (value-kind dataflow, construles)
+    kinds = {}
+    try:
+        cls_tables, _ = encprops.class_tables(facts)
+        tables = facts.instruction_tables()
+        for cls, tnames in cls_tables.items():
+            if cls == 'PseudoInstruction' or cls not in facts.classes:
+                continue
+            attrs = facts.args_attrs(cls) or []
+            for t in tnames:
+                for mn in tables.get(t, {}):
+                    binding = facts.binding(mn)
+                    enc = binding.func
+                    efn = facts.funcs.get(enc)
+                    if efn is None:
+                        raise AnalysisError('mnemonic {!r} is bound to {}, which is not a module-level function'.format(mn, enc))
+                    pk = encoder_param_kinds(facts, enc)
+                    positional = [a.arg for a in efn.args.posonlyargs + efn.args.args if a.arg not in binding.kwargs]   # still open
+                    for attr, p_ in zip(attrs, positional):
+                        kinds.setdefault(attr, set()).add(pk[p_])
+                    rep.count('mnemonic bindings traced to register parameters')
+            for attr, _ in facts.full_attr_order(cls):
+                if attr not in attrs:
+                    kinds.setdefault(attr, set()).add('other')       # line, name, flags: not operands of the encoder
+    except AnalysisError as e:
+        und.append('register-kinded fields could not be derived: {}'.format(e))
+        kinds = None
+    needed = {a for a, k in kinds.items() if 'reg' in k} if kinds is not None else None
+    if not needed:
+        # fall back on the bit-level encoder summaries (interprocedural, table-aware): a parameter is register-kinded when the
+        # summary places it as a register operand
+        try:
+            from ..encsum import all_summaries
+            sums = all_summaries(facts)
+            cls_tables, _ = encprops.class_tables(facts)
+            tables = facts.instruction_tables()
+            kinds2 = {}
+            for cls, tnames in cls_tables.items():
+                if cls == 'PseudoInstruction' or cls not in facts.classes:
+                    continue
+                attrs = facts.args_attrs(cls) or []
+                for t in tnames:
+                    for mn in tables.get(t, {}):
+                        sm = sums[mn]
+                        regp = set()
+                        for b in sm.bits:
+                            if isinstance(b, tuple) and b and b[0] != 'overlap' and isinstance(b[0], tuple) and b[0][0] == 'reg':
+                                regp.add(b[0][1])
+                        for attr, p_ in zip(attrs, sm.params):
+                            kinds2.setdefault(attr, set()).add('reg' if p_ in regp else 'other')
+                for attr, _ in facts.full_attr_order(cls):
+                    if attr not in attrs:
+                        kinds2.setdefault(attr, set()).add('other')
+            if any('reg' in k for k in kinds2.values()):
+                kinds = kinds2
+                needed = {a for a, k in kinds.items() if 'reg' in k}
+                und[:] = [u for u in und if not u.startswith('register-kinded fields could not be derived')]
+        except AnalysisError:
+            pass
+    if needed is not None and not needed:
+        und.append('no register-kinded field could be derived (parse_item / class tables not understood)')
+    elif needed is not None:
+        rep.check(needed <= regs, 'R11.3.fields', 'alias substitution covers every register-kinded field {}'.format(sorted(needed)),
+                  lambda: Finding('R11.3.fields', 'resolve_register_aliases', regs_node,
+                                  'register fields {} are never alias-resolved: a constant naming a register is rejected there'.format(sorted(needed - regs)), line=regs_node.lineno))
+        nonreg = {a for a in regs if a in kinds and 'reg' not in kinds[a]}
+        rep.check(not nonreg, 'R11.3.fields', 'alias substitution touches register fields only',
+                  lambda: Finding('R11.3.fields', 'resolve_register_aliases', regs_node, 'non-register fields {} are rewritten by alias resolution'.format(sorted(nonreg)), line=regs_node.lineno), nontrivial=False)
+    # the rebuild: item.__class__(*<all fields of the item>.values())
+    _, loop, paths = item_loop_paths(facts, ra)
+    item = ('item', loop.target.id) if isinstance(loop.target, ast.Name) else None
+    result = returned_list(ra)
     rebuilt = 0
-    for r in pa.rows:
-        for val, node in r['app_values']:
+    for p in paths:
+        acc = account(p, result)
+        for recv, val, node, meth in acc.appended:
+            if recv not in (('lv', result), ('name', result)) or val is None:
+                continue
             if val[0] == 'mcall' and val[2] == '__class__':
                 rebuilt += 1
-                ok = val[1] == pa.item and len(val[3]) == 1 and val[3][0][0] == 'star'
-                rep.check(ok, 'R11.3.rebuild', 'rebuilt as item.__class__(*fields) (all other fields preserved, see rebuild invariant)',
+                ok = val[1] == item and len(val[3]) == 1 and val[3][0][0] == 'star' and not val[4] \
+                    and val[3][0][1][0] == 'mcall' and val[3][0][1][2] == 'values'
+                rep.check(ok, 'R11.3.rebuild', 'rebuilt as item.__class__(*fields.values()) (all other fields preserved, see rebuild invariant)',
                           lambda node=node: Finding('R11.3.rebuild', 'resolve_register_aliases', node, 'the item is not rebuilt positionally from its own fields', line=node.lineno), nontrivial=False)
+            elif val != item and val[0] in ('new', 'call', 'callv'):
+                und.append('resolve_register_aliases builds its replacement item in a way that is not understood: {}'.format(show(val)[:60]))
     rep.check(rebuilt >= 1, 'R11.3.rebuild', 'an alias-resolved item is rebuilt',
               lambda: Finding('R11.3.rebuild', 'resolve_register_aliases', ra, 'items with aliases are no longer rebuilt with the resolved registers', line=ra.lineno))
-    # how does the pass decide that a field names a constant?  Membership in `constants` (or `.get(...) is None`); a bare
+    # how does the pass decide that a field names a constant?  Membership in the table (or `.get(...) is None`); a bare
     # truthiness test of the looked-up value is wrong because 0 (x0, shift amount 0) is a legal constant value
     looked = set()
+    lookups = 0
     for n in ast.walk(ra):
-        if isinstance(n, ast.Assign) and isinstance(n.targets[0], ast.Name):
-            v = n.value
-            if (isinstance(v, ast.Subscript) and isinstance(v.value, ast.Name) and v.value.id == 'constants') or \
-                    (isinstance(v, ast.Call) and isinstance(v.func, ast.Attribute) and v.func.attr == 'get' and isinstance(v.func.value, ast.Name) and v.func.value.id == 'constants'):
-                looked.add(n.targets[0].id)
-    uses_lookup = bool(looked) or any(isinstance(n, ast.Subscript) and isinstance(n.value, ast.Name) and n.value.id == 'constants' for n in ast.walk(ra))
-    member = [n for n in ast.walk(ra) if isinstance(n, ast.Compare) and len(n.ops) == 1 and isinstance(n.ops[0], (ast.NotIn, ast.In)) and unparse(n.comparators[0]) == 'constants']
+        is_lookup = (isinstance(n, ast.Subscript) and isinstance(n.ctx, ast.Load) and is_table(n.value)) or \
+            (isinstance(n, ast.Call) and isinstance(n.func, ast.Attribute) and n.func.attr == 'get' and is_table(n.func.value))
+        if is_lookup:
+            lookups += 1
+            par = getattr(n, '_parent', None)
+            if isinstance(par, ast.Assign) and isinstance(par.targets[0], ast.Name):
+                looked.add(par.targets[0].id)
+            if isinstance(par, ast.NamedExpr) and isinstance(par.target, ast.Name):
+                looked.add(par.target.id)
+    member = [n for n in ast.walk(ra) if isinstance(n, ast.Compare) and len(n.ops) == 1 and isinstance(n.ops[0], (ast.NotIn, ast.In)) and is_table(n.comparators[0])]
     none_tests = [n for n in ast.walk(ra) if isinstance(n, ast.Compare) and len(n.ops) == 1 and isinstance(n.ops[0], (ast.Is, ast.IsNot))
                   and isinstance(n.left, ast.Name) and n.left.id in looked and isinstance(n.comparators[0], ast.Constant) and n.comparators[0].value is None]
     truthy = []
@@ -170,50 +457,195 @@ def check_aliases(rep, facts):
         tests = []
         if isinstance(n, (ast.If, ast.While, ast.IfExp)):
             tests.append(n.test)
+        if isinstance(n, ast.comprehension):
+            tests.extend(n.ifs)
         for t in tests:
             for x in ast.walk(t):
-                if isinstance(x, ast.Name) and x.id in looked:
+                bare_lookup = (isinstance(x, ast.Call) and isinstance(x.func, ast.Attribute) and x.func.attr == 'get' and is_table(x.func.value))
+                if (isinstance(x, ast.Name) and x.id in looked) or bare_lookup:
                     par = getattr(x, '_parent', None)
-                    if not (isinstance(par, ast.Compare)):
-                        truthy.append(n)
-    keyg = [n for n in ast.walk(ra) if isinstance(n, ast.Compare) and len(n.ops) == 1 and isinstance(n.ops[0], (ast.NotIn, ast.In)) and isinstance(n.comparators[0], ast.Name)
-            and n.comparators[0].id not in ('constants',) and isinstance(n.left, ast.Name)]
+                    if not isinstance(par, ast.Compare) and not (isinstance(par, ast.Call) and par is not x):
+                        truthy.append(n if not isinstance(n, ast.comprehension) else t)
+    keyg = [n for n in ast.walk(ra) if isinstance(n, ast.Compare) and len(n.ops) == 1 and isinstance(n.ops[0], (ast.NotIn, ast.In))
+            and not is_table(n.comparators[0]) and res.literal(n.comparators[0]) is not None and set(res.literal(n.comparators[0])) == regs]
+    iter_regs = [n for n in ast.walk(ra) if isinstance(n, (ast.For, ast.comprehension)) and res.literal(n.iter) is not None and set(res.literal(n.iter)) == regs]
     for t in truthy:
         rep.fail(Finding('R11.3.lookup', 'resolve_register_aliases', t,
                          'whether a register field names a constant is decided by the truthiness of the looked-up value: a constant equal to 0 (an alias of x0, a zero shift amount) is '
                          'treated as "not a constant" and left unsubstituted', line=t.lineno))
-    rep.check(uses_lookup and (bool(member) or bool(none_tests)) and bool(keyg), 'R11.3.lookup', 'a register field that names a constant is replaced by constants[name], others untouched',
-              lambda: Finding('R11.3.lookup', 'resolve_register_aliases', ra, 'alias resolution no longer replaces exactly the register fields that name a constant', line=ra.lineno))
-    encprops.check_rebuild_invariant(rep, facts, 'R11.3.rebuild-invariant')
+    if not truthy:
+        if lookups and (member or none_tests) and (keyg or iter_regs):
+            rep.ok('R11.3.lookup', 'a register field that names a constant is replaced by constants[name], others untouched')
+        elif not lookups:
+            rep.fail(Finding('R11.3.lookup', 'resolve_register_aliases', ra, 'alias resolution no longer looks register fields up in the constants table', line=ra.lineno),
+                     instance='a register field that names a constant is replaced by constants[name], others untouched')
+        else:
+            und.append('resolve_register_aliases: how a field is recognised as naming a constant is not understood')
+    try:
+        encprops.check_rebuild_invariant(rep, facts, 'R11.3.rebuild-invariant')
+    except AnalysisError as e:
+        und.append(str(e))
+    return regs
 
 
-def check_modifiers(rep, facts):
-    """R11.5: a constant inside %hi / %lo / %position reaches the same Arithmetic.eval."""
-    arms, els = chain_outcomes(facts, 'parse_immediate', 'imm')
-    ok_base = any(o.kind == 'return' and o.cls == 'Arithmetic' for o in els)
-    fn = facts.funcs['parse_immediate']
-    rep.check(ok_base, 'R11.5.modifiers', 'a plain immediate becomes Arithmetic(text)',
-              lambda: Finding('R11.5.modifiers', 'parse_immediate', fn, 'plain immediates are not parsed into Arithmetic', line=fn.lineno))
-    for key, test, outs in arms:
-        if key[0] != 'head':
-            continue
-        for o in outs:
-            if o.kind != 'return':
+def check_register_text(rep, facts, regs, und):
+    """R11.4: after resolve_register_aliases a register field may hold an int (the value of a constant) and is interpreted through
+    the register table; wherever such a field is re-wrapped as an expression (`Arithmetic(...)`: the shift amount of a compressed
+    shift) it must be normalised through lookup_register and turned into text, because Arithmetic.eval works on str only and
+    evaluates in an environment without the register table.  Decided on every Arithmetic(...) construction of the module whose
+    argument mentions a register field (attribute access, getattr, or a field name handed to a lookup helper)."""
+    defs = {}
+    for n in ast.walk(facts.tree):
+        if isinstance(n, ast.FunctionDef):
+            defs.setdefault(n.name, []).append(n)
+
+    def looks_up(name, depth=0):
+        """does a function of that name hand (something derived from) its parameters to lookup_register?"""
+        if name == 'lookup_register':
+            return True
+        if depth > 2:
+            return False
+        for d in defs.get(name, []):
+            for c in ast.walk(d):
+                if isinstance(c, ast.Call) and isinstance(c.func, ast.Name) and c.func.id != name and looks_up(c.func.id, depth + 1):
+                    return True
+        return False
+
+    def mentions(node):
+        out = []
+        for x in ast.walk(node):
+            if isinstance(x, ast.Attribute) and x.attr in regs and isinstance(x.ctx, ast.Load):
+                out.append(x)
+            elif isinstance(x, ast.Constant) and isinstance(x.value, str) and x.value in regs and isinstance(getattr(x, '_parent', None), ast.Call):
+                out.append(x)
+        return out
+
+    def textual(node):
+        if isinstance(node, ast.Call) and isinstance(node.func, ast.Name) and node.func.id in ('str', 'repr', 'format') and node.args:
+            return True
+        if isinstance(node, ast.Call) and isinstance(node.func, ast.Attribute) and node.func.attr == 'format' and isinstance(node.func.value, ast.Constant):
+            return True
+        if isinstance(node, ast.JoinedStr):
+            return True
+        return isinstance(node, ast.BinOp) and isinstance(node.op, ast.Mod) and isinstance(node.left, ast.Constant) and isinstance(node.left.value, str)
+
+    n = 0
+    for fn in [d for ds in defs.values() for d in ds]:
+        res = None
+        for call in walk_no_nested(fn):
+            if not (isinstance(call, ast.Call) and isinstance(call.func, ast.Name) and call.func.id == 'Arithmetic' and len(call.args) == 1):
                 continue
-            if key[1] in ('%hi', '%lo'):
-                ok = len(o.args) == 1 and o.args[0][0] == 'imm'
-            elif key[1] == '%position':
-                ok = len(o.args) == 2 and o.args[1][0] == 'call' and o.args[1][1] == 'Arithmetic'
+            arg = call.args[0]
+            # a local bound once is read through
+            seen = 0
+            while isinstance(arg, ast.Name) and seen < 3:
+                res = res or Resolver(facts, fn)
+                b = res.binds.get(arg.id)
+                if not b or len(b) != 1 or b[0] is None:
+                    break
+                arg = b[0]
+                seen += 1
+            ms = mentions(arg)
+            if not ms:
+                continue
+            n += 1
+            inst = '{}: Arithmetic({})'.format(fn.name, unparse(arg)[:50])
+
+            def normalised(m):
+                cur = m
+                while cur is not arg and cur is not None:
+                    cur = getattr(cur, '_parent', None)
+                    if isinstance(cur, ast.Call) and isinstance(cur.func, ast.Name) and looks_up(cur.func.id):
+                        return True
+                return False
+            if textual(arg) and all(normalised(m) for m in ms):
+                rep.ok('R11.4.imm', inst + ' (normalised through lookup_register, as text)')
+            elif isinstance(arg, ast.Attribute) or (isinstance(arg, ast.Call) and isinstance(arg.func, ast.Name) and arg.func.id == 'getattr'):
+                rep.fail(Finding('R11.4.imm', fn.name, call,
+                                 'the value held in a register field is re-wrapped as Arithmetic({}): after resolve_register_aliases the field may be an int '
+                                 '(Arithmetic.eval calls str methods on it) and a register-name spelling that lookup_register accepts is evaluated in an '
+                                 'environment without the register table: a constant used as a shift amount breaks under -c'.format(unparse(arg)),
+                                 line=call.lineno), instance=inst)
             else:
-                continue
-            rep.check(ok, 'R11.5.modifiers', '{}: inner expression parsed recursively / as Arithmetic'.format(key[1]),
-                      lambda o=o, key=key: Finding('R11.5.modifiers', 'parse_immediate', o.node, 'the expression inside {} is not evaluated like any other expression'.format(key[1]), line=o.node.lineno),
+                und.append('representation of {} is not understood'.format(inst))
+    rep.analysed['register fields re-wrapped as expressions'] = n
+
+
+def check_modifiers(rep, facts, und):
+    """R11.5: a constant inside %hi / %lo / %position reaches the same Arithmetic.eval."""
+    fn = facts.funcs.get('parse_immediate')
+    if fn is None:
+        raise AnalysisError('anchor vanished: parse_immediate')
+    w = XWalker(facts)
+    st = PathState()
+    for a in fn.args.args + fn.args.kwonlyargs:
+        st.env[a.arg] = ('name', a.arg)
+    seen = set()
+
+    def is_expression(v):
+        """an expression object built like any other: a recursive parse or Arithmetic(text)"""
+        return (v[0] == 'call' and v[1] == 'parse_immediate') or (v[0] == 'new' and v[1] == 'Arithmetic' and len(v[2]) == 1)
+    for p in w.run(fn.body, st):
+        if p.end != 'return':
+            continue
+        ret = [e for e in p.events if e[0] == 'return'][-1]
+        v, node = ret[1], ret[2]
+        if v[0] == 'call' and v[1] == 'parse_immediate':
+            continue
+        if v[0] != 'new' or not facts.is_subclass(v[1], 'Expr'):
+            und.append('parse_immediate returns something that is not an expression object: {}'.format(show(v)[:60]))
+            continue
+        cls = v[1]
+        seen.add(cls)
+        if cls == 'Arithmetic':
+            rep.ok('R11.5.modifiers', 'a plain immediate becomes Arithmetic(text)')
+            # the text evaluated is the operand's tokens, all of them, in order: dropping or reordering tokens changes the expression
+            arg = v[2][0] if v[2] else None
+            params = [a.arg for a in fn.args.args]
+            tok = ('name', params[0]) if params else None
+            if arg is not None and arg[0] == 'mcall' and arg[2] == 'join' and len(arg[3]) == 1 and is_const(arg[1]) and isinstance(arg[1][1], str):
+                src = arg[3][0]
+                whole = src == tok
+                partial = src != tok and IS.contains(src, tok) and src[0] in ('slice', 'unpack', 'sub', 'comp')
+                if whole:
+                    rep.check(arg[1][1].strip() == '', 'R11.5.text', 'the expression text is the operand tokens joined by blanks',
+                              lambda node=node, arg=arg: Finding('R11.5.text', 'parse_immediate', node, 'the operand tokens are joined with {!r}: the text evaluated is not the expression that was written'.format(arg[1][1]), line=node.lineno),
+                              nontrivial=False)
+                elif partial:
+                    rep.fail(Finding('R11.5.text', 'parse_immediate', node,
+                                     'only part of the operand tokens ({}) is evaluated: tokens of the written expression are dropped (e.g. the outer parentheses of "(A + 1) * (B - 1)")'.format(show(src)[:60]),
+                                     line=node.lineno), instance='expression text')
+                else:
+                    und.append('parse_immediate: the text handed to Arithmetic is built from {} (not understood)'.format(show(src)[:60]))
+            elif arg is not None:
+                und.append('parse_immediate: the text handed to Arithmetic is {} (not understood)'.format(show(arg)[:60]))
+            continue
+        fields = stored_fields(facts, cls)
+        inner = [v[2][i] for attr, i in fields.items() if i < len(v[2]) and facts.classes[cls].methods.get('eval') is not None
+                 and any(isinstance(n, ast.Attribute) and n.attr == attr and isinstance(getattr(n, '_parent', None), ast.Attribute) and n._parent.attr == 'eval'
+                         for n in ast.walk(facts.classes[cls].methods['eval']))]
+        # `inner`: constructor arguments stored in a field on which the class's eval() calls .eval(...) again (nested expressions)
+        for x in inner:
+            rep.check(is_expression(x), 'R11.5.modifiers', '{}: inner expression parsed recursively / as Arithmetic'.format(cls),
+                      lambda node=node, cls=cls: Finding('R11.5.modifiers', 'parse_immediate', node, 'the expression inside {} is not evaluated like any other expression'.format(cls), line=node.lineno),
                       nontrivial=False)
+    missing = {'Arithmetic', 'Hi', 'Lo', 'Position'} - seen
+    if missing:
+        und.append('parse_immediate: no return path builds {}'.format(sorted(missing)))
+    rep.analysed['expression classes built by parse_immediate'] = len(seen)
     for cls in ('Hi', 'Lo', 'Position'):
-        m = facts.classes[cls].methods.get('eval')
-        inner = [n for n in ast.walk(m) if isinstance(n, ast.Call) and isinstance(n.func, ast.Attribute) and n.func.attr == 'eval' and unparse(n.func.value) == 'self.expr']
-        params = [a.arg for a in m.args.args][1:]
-        ok = bool(inner) and all([unparse(a) for a in c.args] == params for c in inner)
+        if cls not in facts.classes:
+            raise AnalysisError('anchor vanished: class {}'.format(cls))
+        m, paths = method_paths(facts, cls, 'eval')
+        params = [a.arg for a in m.args.args]
+        want = tuple(('name', p) for p in params[1:])
+        fields = stored_fields(facts, cls)
+        inner = set()
+        for p in paths:
+            for ev in p.events:
+                for t in IS.find_all(ev[1:-1], lambda t: t[0] == 'mcall' and t[2] == 'eval' and t[1][0] == 'attr' and t[1][1] == ('name', params[0]) and t[1][2] in fields):
+                    inner.add(t)
+        ok = bool(inner) and all(t[3] == want and not t[4] for t in inner)
         rep.check(ok, 'R11.5.modifiers', '{}.eval evaluates its inner expression in the same environment'.format(cls),
                   lambda cls=cls, m=m: Finding('R11.5.modifiers', cls + '.eval', m, '{} does not evaluate its inner expression with the position / environment / line it was given'.format(cls), line=m.lineno),
                   nontrivial=False)
@@ -223,24 +655,39 @@ def run(repo, tier):
     facts = Facts(repo.asm)
     rep = Report('C11', LEVEL,
                  'Structural clauses of constant evaluation and substitution: every value returned by Arithmetic.eval passed the exact-int '
-                 'test (or is ord of a character literal) and eval runs with builtins pinned off; constants are evaluated in definition order '
-                 'over ChainMap(constants, REGISTERS) and stored under their own name, shadowing of registers refused; register aliases are '
-                 'resolved before every consumer of register fields, in exactly the register-kinded fields (derived from the encoder '
-                 'summaries), by a positional rebuild under the rebuild invariant; a register field moved into an immediate on the -c path '
-                 'keeps representation and environment; constants inside %hi/%lo/%position reach the same evaluator.')
-    rep.trusted_base = ['CPython ast', 'Python eval() arithmetic on int literals and operators', 'bbverif.pathwalk / bitdom / comprel']
+                 'test (or is ord of a character literal) and eval runs on the stored text with builtins pinned off; constants are evaluated '
+                 'in definition order over ChainMap(constants, REGISTERS) and stored under their own name, shadowing of registers refused, '
+                 'and the pass that fills the table precedes every other pass that receives it; register aliases are resolved before every '
+                 'consumer of register fields, in exactly the register-kinded fields (derived from the encoder summaries), by a positional '
+                 'rebuild under the rebuild invariant; a register field moved into an immediate on the -c path keeps representation and '
+                 'environment; constants inside %hi/%lo/%position reach the same evaluator.  Pass order and table positions come from an '
+                 'abstract evaluation of assemble (passorder), helper methods / functions are inlined on the analysed paths.')
+    rep.trusted_base = ['CPython ast', 'Python eval() arithmetic on int literals and operators', 'bbverif.pathwalk / wiring / passorder']
     rep.not_decided = ['the arithmetic itself (precedence, //, %, ~, shifts): delegated to Python eval, trusted',
                        'the effect of the tokenizer on expression text: splitting on whitespace/commas and paren padding is transparent for numbers and operators but not for '
                        'character literals (\',\' evaluates to 32; \'#\', \'(\', \')\' are refused): value semantics of regex/string processing on particular inputs']
-    check_integer_results(rep, facts)
-    check_constants_pass(rep, facts)
-    check_envs(rep, facts, 'R11.2.env')
-    check_aliases(rep, facts)
-    rel = CompRel(facts)
-    check_representation(rep, facts, rel, 'R11.4')
-    check_modifiers(rep, facts)
+    und = []
+    pipe = Pipeline(facts)
+
+    def guarded(f, *args):
+        try:
+            f(*args)
+        except AnalysisError as e:
+            und.append(str(e))
+    guarded(check_integer_results, rep, facts, und)
+    guarded(check_constants_pass, rep, facts, pipe, und)
+    guarded(check_envs, rep, facts, pipe, und)
+    regs = []
+    guarded(lambda: regs.append(check_aliases(rep, facts, pipe, und)))
+    if regs and regs[0]:
+        guarded(check_register_text, rep, facts, regs[0], und)
+    guarded(check_modifiers, rep, facts, und)
+    if und and not rep.findings:
+        raise AnalysisError(und[0] + (' (+{} more)'.format(len(set(und)) - 1) if len(set(und)) > 1 else ''))
     rep.floor('Arithmetic.eval return paths', 2)
+    rep.floor('sandboxed evaluations', 1)
     rep.floor('constant definition paths', 1)
-    rep.floor('label environments', 5)
-    rep.floor('constructor arguments classified', 40)
+    rep.floor('passes that receive the constants table', 3)
+    rep.floor('passes with a label environment', 2)
+    rep.floor('register fields re-wrapped as expressions', 1)
     return rep
